@@ -113,6 +113,7 @@ type confirmedViolation struct {
 var (
 	repoRoot    = "/repo"
 	verifRoot   = "/verif"
+	outRoot     = "" // evidence/ and replays/ are written under this directory (default: verifRoot; $VERIF_OUT for sweeps over scratch copies)
 	goBin       = "/opt/veriftools/go1.26.8/bin"
 )
 
@@ -159,6 +160,10 @@ func main() {
 	}
 	if v := os.Getenv("VERIF_ROOT"); v != "" {
 		verifRoot = v
+	}
+	outRoot = verifRoot
+	if v := os.Getenv("VERIF_OUT"); v != "" {
+		outRoot = v
 	}
 	os.Setenv("PATH", goBin+":"+os.Getenv("PATH"))
 	os.Setenv("GOTOOLCHAIN", "local")
@@ -241,7 +246,7 @@ func runCheck(prop, tier string, seed int, only string, workers int, solver stri
 		return 0
 	}
 	known := loadKnown()
-	evPath := filepath.Join(verifRoot, "evidence", prop+".json")
+	evPath := filepath.Join(outRoot, "evidence", prop+".json")
 	os.MkdirAll(filepath.Dir(evPath), 0o755)
 
 	var results []*jobResult
@@ -579,7 +584,7 @@ func (r *replayer) ensureBin(pkg string) (string, error) {
 }
 
 func (r *replayer) replay(pkg, fn, job, assertion string, idx int, v symgo.PathResult, params map[string]int64) (path, native string, ok bool) {
-	dir := filepath.Join(verifRoot, "replays", r.prop)
+	dir := filepath.Join(outRoot, "replays", r.prop)
 	os.MkdirAll(dir, 0o755)
 	safe := strings.NewReplacer("[", "_", "]", "", "/", "_", " ", "_", "*", "").Replace(job + "-" + assertion)
 	path = filepath.Join(dir, fmt.Sprintf("%s-%d.json", safe, idx))
